@@ -285,6 +285,49 @@ def check_invariants(root, ux, uy, meas):
     return out
 
 
+def tall_shape(rng):
+    """Two (or more) long spines hanging from one node: both sibling contours are 40-130
+    levels deep, so the contour walk runs far longer than in any bushy tree of the same
+    size, and the first collision may lie deep down.  Spines turn at random, carry a few
+    small side branches, and may start below a short stem."""
+    def spine(depth, turn_p, side, branch_p):
+        s = [None, None]
+        cur = s
+        for _ in range(depth - 1):
+            if rng.random() < turn_p:
+                side = 1 - side
+            nxt = [None, None]
+            cur[side] = nxt
+            if rng.random() < branch_p:
+                cur[1 - side] = rng.choice([[None, None], [[None, None], [None, None]], [[None, None], None]])
+            cur = nxt
+        return s
+    d1 = rng.choice([40, 47, 50, 56, 64, 90, 130])
+    d2 = rng.choice([d1, d1 - 1, d1 + 6, 45, 52, 70])
+    mode = rng.random()
+    if mode < 0.35:      # two straight-ish spines leaning towards each other, colliding far down
+        k = rng.randint(0, 8)
+        left = spine(d1, 0.0, 0, 0.0)
+        cur = left
+        for _ in range(d1 - 1 - k):
+            cur = cur[0]
+        # the left spine turns right for its last k steps, towards the right sibling's contour
+        tail = spine(k + 1, 0.0, 1, 0.0)
+        cur[0], cur[1] = tail[0], tail[1]
+        right = spine(d2, 0.0, 0, 0.0)
+    else:
+        tp = rng.choice([0.02, 0.1, 0.5])
+        bp = rng.choice([0.0, 0.03, 0.1])
+        left = spine(d1, tp, rng.randrange(2), bp)
+        right = spine(d2, tp, rng.randrange(2), bp)
+    shape = [left, right]
+    if rng.random() < 0.5:
+        shape = mirror_shape(shape)
+    for _ in range(rng.choice([0, 0, 1, 3])):
+        shape = [shape, None] if rng.random() < 0.5 else [None, shape]
+    return shape
+
+
 class World:
     def __init__(self, cfg, res):
         self.cfg = cfg
@@ -497,11 +540,11 @@ class LayoutSim:
 
     def plan(self, prop, tier):
         if tier == "quick":
-            return [("exhaustive", catalan_cum(self.EXH_QUICK)[-1]), ("sessions", 30000)]
-        return [("exhaustive", catalan_cum(self.EXH_THOROUGH)[-1]), ("sessions", 1500000)]
+            return [("exhaustive", catalan_cum(self.EXH_QUICK)[-1]), ("sessions", 30000), ("tall", 480)]
+        return [("exhaustive", catalan_cum(self.EXH_THOROUGH)[-1]), ("sessions", 1500000), ("tall", 16000)]
 
     def batch_size(self, stratum):
-        return 250
+        return 10 if stratum == "tall" else 250
 
     def new_world(self, cfg, res):
         return World(cfg, res)
@@ -520,6 +563,20 @@ class LayoutSim:
                 ["layout", rng.randrange(n), 1.0, 1.0],
                 ["layout", 0, rng.choice(MULTS), rng.choice(MULTS)],
             ]
+            return cfg
+        if stratum == "tall":
+            # deep trees (80-300 nodes) and marathons: one TreeLayout object kept for
+            # hundreds of calls (state that accumulates on the layouter, not on the nodes)
+            if rng.random() < 0.8:
+                cfg["tree"] = {"kind": "shape", "shape": tall_shape(rng)}
+            else:
+                cfg["tree"] = {"kind": "shape", "shape": random_shape(rng, rng.choice([31, 63, 127]), "full")}
+            marathon = rng.random() < 0.12
+            cfg["shared_layouter"] = True if marathon else rng.random() < 0.6
+            cfg["n_ops"] = rng.choice([500, 900, 1400]) if marathon else rng.choice([2, 3, 4, 6])
+            cfg["sub_range"] = 400
+            cfg["w"] = {"root": 6 if marathon else rng.choice([3, 5]), "sub": rng.choice([0, 1, 2]),
+                        "edit": rng.choice([0, 0, 1])}
             return cfg
         r = rng.random()
         if r < 0.2:
@@ -558,7 +615,7 @@ class LayoutSim:
             if k == "root":
                 yield ["layout", 0, rng.choice(MULTS), rng.choice(MULTS)]
             elif k == "sub":
-                yield ["layout", rng.randrange(1, 64), rng.choice(MULTS), rng.choice(MULTS)]
+                yield ["layout", rng.randrange(1, cfg.get("sub_range", 64)), rng.choice(MULTS), rng.choice(MULTS)]
             else:
                 e = rng.choice(["rotate", "rotate", "swap", "grow", "grow", "prune"])
                 if e == "grow":
@@ -597,7 +654,8 @@ class LayoutSim:
         }
 
     def assumptions(self, prop):
-        return ["unit multipliers are positive", "shapes <= 63 nodes in random strata; exhaustive strata bounded "
+        return ["unit multipliers are positive", "shapes <= 63 nodes in random strata, 80-300 nodes (spines of 40-130 levels) in the "
+                "tall stratum, whose marathon sessions keep one TreeLayout object for 500-1400 calls; exhaustive strata bounded "
                 "by node count (7 quick, 10 thorough)",
                 "the pristine-clone layout is the meaning of 'depends only on the shape'"]
 
